@@ -1085,7 +1085,8 @@ class Processor:
         elif isinstance(data, (set, CommentedSet)):
             for ele in data:
                 ele_val = ele.value if isinstance(ele, TaggedScalar) else ele
-                if ele_val == stripped_attrs:
+                if (ele_val == stripped_attrs
+                        or str(ele_val) == str_stripped):
                     self.logger.debug((
                         "Processor::_get_nodes_by_key:  FOUND set node by"
                         " name at {}."
@@ -1095,7 +1096,7 @@ class Processor:
                             ele_val, translated_path.separator))
                     next_ancestry = ancestry + [(data, ele)]
                     yield NodeCoords(
-                        ele, data, stripped_attrs,
+                        ele, data, ele,
                         next_translated_path, next_ancestry, pathseg)
                     break
 
